@@ -1,9 +1,10 @@
 import Corankco.Proto
+import Corankco.Driver.C01
 import Corankco.Driver.C02
 open Corankco
 
 def allOps : List (String × (J → Option J)) :=
-  Driver.c02Ops
+  Driver.c01Ops ++ Driver.c02Ops
 
 def handle (line : String) : String :=
   let line := line.trimAscii.toString
